@@ -11,10 +11,13 @@
     - [filterEvents]   (Model/EventLog.v, C12) the recorded log restricted to PCR0 / bank;
     - [distance]       eventAndMeasurementsDistance, in uint64 arithmetic, with its two
                        "should never happen" panics;
-    - [choose_bitmaps] the part of bruteForceAlignedEventLogs the property depends on:
-                       the early return on distance 0.  The three brute-force phases that
-                       follow are NOT modelled: their outcome (two disable bitmaps) is an
-                       input of the model ([oracle]); optimality is not claimed by C13;
+    - [choose_bitmaps] bruteForceAlignedEventLogs inside [reproduce]: the early return on
+                       distance 0; the outcome of the brute-force phases that follow (two
+                       disable bitmaps) is an input of [reproduce] ([oracle]);
+    - [search_results] (end of the file) those phases at set level: the set of
+                       (distance, bitmaps) results they may leave - minimal distance over
+                       the space the nested BruteForce runs enumerate; the case checker
+                       demands that the bitmaps of every returned result are among them;
     - [align_logs]     alignLogs: defensive count check and the interleaving loop;
     - [walk_meas]      the second half of alignLogsAndMeasurements (re-attaching
                        measurements by pointer identity of the events);
@@ -494,3 +497,75 @@ Fixpoint identical (es : list event) (cs : list sim_ev) : bool :=
   | e :: es', c :: cs' => digests_equal c e && (ev_type e =? s_type c) && identical es' cs'
   | _, _ => false
   end.
+
+(** * bruteForceAlignedEventLogs at set level (the phases that follow the early return)
+
+    What the search may return, as a SET of (distance, bitmaps) results: the nested
+    bruteforcer.BruteForce runs are modelled by the sets of bitmaps they enumerate (all
+    bitmaps at a given Hamming distance from the start value; partition / schedule of the
+    goroutines are property C07's), and "keep the candidate with the smallest distance" by
+    "any candidate of minimal distance" (which one of several equally distant candidates a
+    run keeps depends on the goroutine schedule).
+    - first phase ("align the amounts"): exactly |amount difference| entries of the longer
+      side are disabled, the other bitmap is all-false;
+    - second phase ("align the content"): the recorded bitmap is varied by up to
+      DisabledEventsMaxDistance flips around the first-phase value; for each, exactly as
+      many further simulated entries as the balance of the amounts demands are disabled on
+      top of the first-phase ones (a candidate that un-disables one is skipped by the count
+      check of the innermost callback). *)
+
+Fixpoint flips (k : nat) (base : list bool) : list (list bool) :=
+  match base with
+  | [] => match k with O => [[]] | S _ => [] end
+  | b :: t =>
+      map (cons b) (flips k t)
+      ++ match k with O => [] | S k' => map (cons (negb b)) (flips k' t) end
+  end.
+
+Definition flips_upto (n : nat) (base : list bool) : list (list bool) :=
+  flat_map (fun k => flips k base) (seq 0 (S n)).
+
+Definition bitmaps : Type := (list bool * list bool)%type.   (* (recorded, simulated) *)
+
+Definition bm_dist (es : list event) (cs : list sim_ev) (p : bitmaps) : option Z :=
+  match distance (flag (snd p) cs) (flag (fst p) es) 0 with Ok d => Some d | _ => None end.
+
+Definition scored (es : list event) (cs : list sim_ev) (l : list bitmaps) : list (Z * bitmaps) :=
+  flat_map (fun p => match bm_dist es cs p with Some d => [(d, p)] | None => [] end) l.
+
+Definition min_of (l : list Z) : option Z :=
+  match l with [] => None | x :: t => Some (fold_left Z.min t x) end.
+
+Definition argmins {X} (l : list (Z * X)) : list (Z * X) :=
+  match min_of (map fst l) with
+  | None => []
+  | Some m => filter (fun x => fst x =? m) l
+  end.
+
+Definition amount_diff (es : list event) (cs : list sim_ev) : Z :=
+  Z.of_nat (length es) - Z.of_nat (length cs).
+
+Definition phase1_cands (es : list event) (cs : list sim_ev) : list bitmaps :=
+  let d := amount_diff es cs in
+  if d =? 0 then [(all_false es, all_false cs)]
+  else if d <? 0 then map (fun m => (all_false es, m)) (flips (Z.to_nat (- d)) (all_false cs))
+  else map (fun e => (e, all_false cs)) (flips (Z.to_nat d) (all_false es)).
+
+Definition bm_balanced (es : list event) (cs : list sim_ev) (p : bitmaps) : bool :=
+  Z.of_nat (count_true (fst p)) - Z.of_nat (count_true (snd p)) =? amount_diff es cs.
+
+Definition phase2_space (es : list event) (cs : list sim_ev) (maxdist : Z) (p1 : bitmaps) : list bitmaps :=
+  flat_map (fun e =>
+    let bd := Z.of_nat (count_true e) - Z.of_nat (count_true (snd p1)) - amount_diff es cs in
+    if bd <? 0 then []
+    else filter (bm_balanced es cs) (map (fun m => (e, m)) (flips (Z.to_nat bd) (snd p1))))
+  (flips_upto (Z.to_nat (Z.min maxdist (Z.of_nat (length es)))) (fst p1)).
+
+Definition search_results (es : list event) (cs : list sim_ev) (maxdist : Z) : list (Z * bitmaps) :=
+  flat_map (fun p1 => argmins (scored es cs (phase2_space es cs maxdist (snd p1))))
+           (argmins (scored es cs (phase1_cands es cs))).
+
+(** the documented rule the distance metric implements: a pair of events that agree in
+    neither type nor digest costs more than leaving both unpaired *)
+Definition unrelated (c : sim_ev) (e : event) : bool :=
+  negb (digests_equal c e) && negb (ev_type e =? s_type c).
